@@ -479,8 +479,39 @@ def install(world):
                 if d:
                     return d[0]
                 it.raise_('StopIteration', node=node)
+        if isinstance(x, SVal):
+            # advancing an opaque iterator: a logged effect; it yields an
+            # (uninterpreted) element or is exhausted
+            r = apply_uf('py.next', (x, len(it.calls)), 'Val')
+            it.calls.append(('next', (x,), r))
+            done = z3.Bool(S.fresh_name('exhausted'))
+            if it.branch(done):
+                if d:
+                    return d[0]
+                it.raise_('StopIteration', node=node)
+            return r
         raise Unsupported('next()')
     reg('next', b_next, True)
+
+    def insp_pred(nm):
+        def f(x):
+            if isinstance(x, SVal):
+                return SBool(uf('inspect.' + nm, S.Val, z3.BoolSort())(x.t))
+            raise Unsupported('inspect.%s(%r)' % (nm, x))
+        return f
+    # unicodedata: T-conv - SOME string / name / category, uninterpreted (a
+    # normal form is in general a different sequence of code points)
+    world.lib[('unicodedata',)] = True
+    world.lib[('unicodedata', 'normalize')] = Model(
+        'unicodedata.normalize', lambda form, s: SStr(apply_uf(
+            'unicodedata.normalize', (form, s), 'Str').t))
+    world.lib[('unicodedata', 'category')] = Model(
+        'unicodedata.category', lambda c: SStr(apply_uf(
+            'unicodedata.category', (c,), 'Str').t))
+    world.lib[('inspect',)] = True
+    for nm in ('isgenerator', 'isgeneratorfunction', 'isfunction',
+               'ismethod', 'isclass', 'iscoroutine'):
+        world.lib[('inspect', nm)] = Model('inspect.' + nm, insp_pred(nm))
 
     def _quant_seq(x, forall):
         # all()/any() over a sequence of symbolic length: a quantifier
